@@ -745,6 +745,62 @@ theorem detects_wire_json_type_change (hg : pf.field.kind.wireJsonGroup ≠ cf.f
   rw [if_pos hg]
   exact List.mem_cons_self
 
+/-- FIELD_WIRE_COMPATIBLE_TYPE, type-NAME branch: the kinds are in the same wire group, the current
+    field is DECLARED (`FieldDescriptorProto.type`) as a group or a message — a proto2 `group`, or a
+    message field of any syntax whether length-prefixed or DELIMITED by an editions feature — and the
+    message type name changed: located at the current field's type name -/
+theorem detects_wire_message_type_name_change (hg : pf.field.kind.wireGroup = cf.field.kind.wireGroup)
+    (hty : cf.field.ty = .group ∨ cf.field.ty = .message) (ht : pf.field.typeName ≠ cf.field.typeName) :
+    Reports "FIELD_WIRE_COMPATIBLE_TYPE" (changedTypeNameAnn "FIELD_WIRE_COMPATIBLE_TYPE" cf) cur prev := by
+  apply reports_of_run
+  rw [runRule_eq (f := ruleFieldWireCompatibleType) rfl]
+  unfold ruleFieldWireCompatibleType
+  apply mem_fieldPairs_paired hw hp
+  rcases hty with h | h <;> simp [hg, h, ht]
+
+/-- FIELD_WIRE_JSON_COMPATIBLE_TYPE, type-NAME branch: same wire+JSON group, the RESOLVED kind of the
+    current field (`protoreflect Kind()`: group for proto2 groups and for delimited editions fields,
+    message otherwise) is group or message and the type name changed -/
+theorem detects_wire_json_message_type_name_change
+    (hg : pf.field.kind.wireJsonGroup = cf.field.kind.wireJsonGroup)
+    (hk : cf.field.kind = .group ∨ cf.field.kind = .message) (ht : pf.field.typeName ≠ cf.field.typeName) :
+    Reports "FIELD_WIRE_JSON_COMPATIBLE_TYPE" (changedTypeNameAnn "FIELD_WIRE_JSON_COMPATIBLE_TYPE" cf) cur prev := by
+  apply reports_of_run
+  rw [runRule_eq (f := ruleFieldWireJsonCompatibleType) rfl]
+  unfold ruleFieldWireJsonCompatibleType
+  apply mem_fieldPairs_paired hw hp
+  rcases hk with h | h <;> simp [hg, h, ht]
+
+/-- A field that is GROUP / DELIMITED encoded on BOTH sides (resolved kind = group: a proto2 `group`,
+    declared type group; or an editions message field with `features.message_encoding = DELIMITED`
+    set on the field or inherited from the file, declared type message) whose message type name
+    changes — number and encoding unchanged — is reported by all three type rules, each at the
+    current field's type name. -/
+theorem detects_group_encoded_type_name_change (hpk : pf.field.kind = .group) (hck : cf.field.kind = .group)
+    (hty : cf.field.ty = .group ∨ cf.field.ty = .message) (ht : pf.field.typeName ≠ cf.field.typeName) :
+    Reports "FIELD_SAME_TYPE" (changedTypeNameAnn "FIELD_SAME_TYPE" cf) cur prev ∧
+    Reports "FIELD_WIRE_JSON_COMPATIBLE_TYPE" (changedTypeNameAnn "FIELD_WIRE_JSON_COMPATIBLE_TYPE" cf) cur prev ∧
+    Reports "FIELD_WIRE_COMPATIBLE_TYPE" (changedTypeNameAnn "FIELD_WIRE_COMPATIBLE_TYPE" cf) cur prev := by
+  refine ⟨?_, ?_, ?_⟩
+  · exact detects_type_name_change hw hp (by rw [hpk, hck]) (by rcases hty with h | h <;> simp [h, Kind.named]) ht
+  · exact detects_wire_json_message_type_name_change hw hp (by rw [hpk, hck]) (Or.inl hck) ht
+  · exact detects_wire_message_type_name_change hw hp (by rw [hpk, hck]) hty ht
+
+/-- delimited ↔ length-prefixed flip of a message field (declared type message on both sides, resolved
+    kind message vs group): the three type rules report a changed type, located at the type name
+    (`changedTypeAnn` of a named kind).  The wire groups of `message` and `group` differ in the
+    regenerated tables (`decide`). -/
+theorem detects_message_encoding_flip
+    (hflip : (pf.field.kind = .message ∧ cf.field.kind = .group) ∨ (pf.field.kind = .group ∧ cf.field.kind = .message)) :
+    Reports "FIELD_SAME_TYPE" (changedTypeAnn "FIELD_SAME_TYPE" cf) cur prev ∧
+    Reports "FIELD_WIRE_JSON_COMPATIBLE_TYPE" (changedTypeAnn "FIELD_WIRE_JSON_COMPATIBLE_TYPE" cf) cur prev ∧
+    Reports "FIELD_WIRE_COMPATIBLE_TYPE" (changedTypeAnn "FIELD_WIRE_COMPATIBLE_TYPE" cf) cur prev := by
+  refine ⟨?_, ?_, ?_⟩
+  · exact detects_type_change hw hp (by rcases hflip with ⟨a, b⟩ | ⟨a, b⟩ <;> simp [a, b])
+  · exact detects_wire_json_type_change hw hp (by rcases hflip with ⟨a, b⟩ | ⟨a, b⟩ <;> rw [a, b] <;> decide)
+  · exact detects_wire_type_change hw hp (by rcases hflip with ⟨a, b⟩ | ⟨a, b⟩ <;> rw [a, b] <;> decide)
+      (by rcases hflip with ⟨a, b⟩ | ⟨a, b⟩ <;> simp [a, b])
+
 /-- cardinality (FIELD_SAME_CARDINALITY and, with the regenerated group tables, the WIRE_JSON / WIRE
     variants): located at the current field -/
 theorem detects_cardinality_change (hm : ¬ (pf.field.inMapEntry = true ∧ cf.field.inMapEntry = true))
@@ -1423,5 +1479,50 @@ example : enclosing cA ["Outer", "Mid", "Gone"] = some cMidF ∧
     enclosing cA ["Outer", "Mid", "Gone", "Deep", "E"] = some cMidF ∧
     enclosing cA ["Status"] = none ∧ cMidF.path = midP ∧ msgAt cA midP = some cMid := by
   refine ⟨by decide, by decide, by decide, by decide, rfl⟩
+
+/-! ### group / delimited encoded fields (witness `gPrev → gCur`)
+
+    `g/e.proto` (edition 2023, file-level `features.message_encoding = DELIMITED`), message `g.M`:
+      1 `a`   : `X a = 1;` → `Y a = 1;`            delimited by INHERITANCE on both sides (declared
+                                                   type message, resolved kind group), type name changes
+      2 `b`   : `X b = 2 [features.message_encoding = LENGTH_PREFIXED];` → the override is removed:
+                                                   length-prefixed → delimited, type name unchanged
+      3 `c`   : `X c = 3 [features.message_encoding = LENGTH_PREFIXED];` → `Y c = 3 [… LENGTH_PREFIXED]`
+                                                   plain message field, type name changes
+    `g/p.proto` (proto2), message `g.P`:
+      1 `grp1` → `grp2` : `optional group Grp1 = 1 {…}` re-declared as `Grp2` (declared type group)
+    a new first field shifts every index of `M`. -/
+
+/-- field 1 of `M`: delimited (inherited) on both sides, `g.X` → `g.Y`: all three type rules, at the
+    type name of the CURRENT field (index 1 after the new first field) -/
+example :
+    Reports "FIELD_SAME_TYPE" ⟨"FIELD_SAME_TYPE", "g/e.proto", [4, 0, 2, 1, 6]⟩ gCur gPrev ∧
+    Reports "FIELD_WIRE_JSON_COMPATIBLE_TYPE" ⟨"FIELD_WIRE_JSON_COMPATIBLE_TYPE", "g/e.proto", [4, 0, 2, 1, 6]⟩ gCur gPrev ∧
+    Reports "FIELD_WIRE_COMPATIBLE_TYPE" ⟨"FIELD_WIRE_COMPATIBLE_TYPE", "g/e.proto", [4, 0, 2, 1, 6]⟩ gCur gPrev :=
+  detects_group_encoded_type_name_change gCur_wf (gM_paired 1 (by decide) (by decide) rfl)
+    rfl rfl (Or.inr rfl) (by decide)
+
+/-- the proto2 group `Grp1` re-declared as `Grp2` (declared type group) -/
+example :
+    Reports "FIELD_SAME_TYPE" ⟨"FIELD_SAME_TYPE", "g/p.proto", [4, 0, 2, 0, 6]⟩ gCur gPrev ∧
+    Reports "FIELD_WIRE_JSON_COMPATIBLE_TYPE" ⟨"FIELD_WIRE_JSON_COMPATIBLE_TYPE", "g/p.proto", [4, 0, 2, 0, 6]⟩ gCur gPrev ∧
+    Reports "FIELD_WIRE_COMPATIBLE_TYPE" ⟨"FIELD_WIRE_COMPATIBLE_TYPE", "g/p.proto", [4, 0, 2, 0, 6]⟩ gCur gPrev :=
+  detects_group_encoded_type_name_change gCur_wf gP_paired rfl rfl (Or.inl rfl) (by decide)
+
+/-- field 2 of `M`: length-prefixed → delimited, same type name: a changed TYPE for all three rules -/
+example :
+    Reports "FIELD_SAME_TYPE" ⟨"FIELD_SAME_TYPE", "g/e.proto", [4, 0, 2, 2, 6]⟩ gCur gPrev ∧
+    Reports "FIELD_WIRE_JSON_COMPATIBLE_TYPE" ⟨"FIELD_WIRE_JSON_COMPATIBLE_TYPE", "g/e.proto", [4, 0, 2, 2, 6]⟩ gCur gPrev ∧
+    Reports "FIELD_WIRE_COMPATIBLE_TYPE" ⟨"FIELD_WIRE_COMPATIBLE_TYPE", "g/e.proto", [4, 0, 2, 2, 6]⟩ gCur gPrev :=
+  detects_message_encoding_flip gCur_wf (gM_paired 2 (by decide) (by decide) rfl) (Or.inl ⟨rfl, rfl⟩)
+
+/-- field 3 of `M`: a plain (length-prefixed) message field, `g.X` → `g.Y`: the type-NAME branch of
+    the two wire rules -/
+example : Reports "FIELD_WIRE_COMPATIBLE_TYPE" ⟨"FIELD_WIRE_COMPATIBLE_TYPE", "g/e.proto", [4, 0, 2, 3, 6]⟩ gCur gPrev :=
+  detects_wire_message_type_name_change gCur_wf (gM_paired 3 (by decide) (by decide) rfl) rfl (Or.inr rfl) (by decide)
+
+example : Reports "FIELD_WIRE_JSON_COMPATIBLE_TYPE"
+    ⟨"FIELD_WIRE_JSON_COMPATIBLE_TYPE", "g/e.proto", [4, 0, 2, 3, 6]⟩ gCur gPrev :=
+  detects_wire_json_message_type_name_change gCur_wf (gM_paired 3 (by decide) (by decide) rfl) rfl (Or.inr rfl) (by decide)
 
 end BufProofs.C03
